@@ -537,4 +537,362 @@ theorem mapValid_entry (i : Nat) (nm tn : String) (k v : Desc) (ep : Bool) :
     mapValid .slice .map [⟨i, nm, .struct, tn, [k, v], ep, .mapEntry⟩] = (k.type == .string) := by
   simp [mapValid, Desc.isValidJSONMapEntry, entryValid]
 
+/-! ### totality: the walker never panics and never hangs
+
+For every descriptor whose slice nodes have an element descriptor (`Desc.ok`;
+every `descriptor t` is such) and EVERY byte string, the walk ends with calls or
+an error. The only `panic` in the model is `d.Elements[0]` on a slice descriptor
+without elements; `hang` needs a loop iteration without progress, which the tag
+(field loops), the length varint (counted loops) and the repaired `n <= 0` check
+(packed loop) exclude. -/
+
+open Total (fine_cases)
+
+theorem fine_of_ok {α : Type} {r : Res α} {a : α} (h : r = .ok a) : r.fine := by rw [h]; trivial
+theorem fine_of_err {α : Type} {r : Res α} (h : r = .err) : r.fine := by rw [h]; trivial
+
+theorem walkLoop_total {σ : Type} (step : Nat → WT → Bytes → σ → Res (σ × Nat)) (L : Nat)
+    (hstep : ∀ idx wt body st, body.length < L → (step idx wt body st).fine) :
+    ∀ fuel data off st, data.length < fuel → data.length ≤ L →
+      (walkLoop step fuel data off st).fine := by
+  intro fuel
+  induction fuel with
+  | zero => intro data off st h; omega
+  | succ f ih =>
+    intro data off st hl hL
+    rw [walkLoop]
+    cases hd : data.isEmpty with
+    | true => simp [Res.fine]
+    | false =>
+      simp only [Bool.false_eq_true, ↓reduceIte]
+      cases hr : readTag data with
+      | none => simp [Res.fine]
+      | some q =>
+        obtain ⟨wt, idx, n⟩ := q
+        have hn := readTag_pos data wt idx n hr
+        simp only
+        have hg := hstep idx wt (data.drop n) st (by simp only [List.length_drop]; omega)
+        rcases fine_cases hg with ⟨⟨st', m⟩, e⟩ | e
+        · simp only [e]
+          exact ih _ _ _ (by simp only [List.length_drop]; omega) (by simp only [List.length_drop]; omega)
+        · simp [e, Res.fine]
+
+theorem packedLoop_total (rd : Bytes → Res (List OCall × Nat)) (hrd : ∀ b, (rd b).fine) :
+    ∀ fuel data off acc, data.length < fuel → (packedLoop rd fuel data off acc).fine := by
+  intro fuel
+  induction fuel with
+  | zero => intro data off acc h; omega
+  | succ f ih =>
+    intro data off acc hl
+    rw [packedLoop]
+    cases hd : data.isEmpty with
+    | true => simp [Res.fine]
+    | false =>
+      simp only [Bool.false_eq_true, ↓reduceIte]
+      have hpos : 0 < data.length := by cases data <;> simp_all
+      rcases fine_cases (hrd data) with ⟨⟨cs, n⟩, e⟩ | e
+      · simp only [e]
+        by_cases hn : n = 0
+        · simp [hn, Res.fine]
+        · simp only [hn, ↓reduceIte]
+          exact ih _ _ _ (by simp only [List.length_drop]; omega)
+      · simp [e, Res.fine]
+
+theorem countLoop_total (rd : Bytes → Res (List OCall × Nat)) (skipEmpty : Bool) (L : Nat)
+    (hrd : ∀ b, b.length ≤ L → (rd b).fine) :
+    ∀ count data off acc, data.length ≤ L → (countLoop rd skipEmpty count data off acc).fine := by
+  intro count
+  induction count with
+  | zero => intro data off acc _; simp [countLoop, Res.fine]
+  | succ c ih =>
+    intro data off acc hL
+    rw [countLoop]
+    cases hd : data.isEmpty with
+    | true => simp [Res.fine]
+    | false =>
+      simp only [Bool.false_eq_true, ↓reduceIte]
+      cases hr : readU data with
+      | none => simp [Res.fine]
+      | some q =>
+        obtain ⟨s, n⟩ := q
+        simp only
+        split
+        · trivial
+        · split
+          · exact ih _ _ _ (by simp only [List.length_drop]; omega)
+          · have hg := hrd ((data.drop n).take s)
+              (by simp only [List.length_take, List.length_drop]; omega)
+            rcases fine_cases hg with ⟨⟨cs, m⟩, e⟩ | e
+            · simp only [e]
+              exact ih _ _ _ (by simp only [List.length_drop]; omega)
+            · simp [e, Res.fine]
+
+theorem framed_total (rd : Bytes → Res (List OCall × Nat)) (wt : WT) (body : Bytes) (L : Nat)
+    (hrd : ∀ b, b.length ≤ L → (rd b).fine) (hb : body.length ≤ L) : (framed rd wt body).fine := by
+  unfold framed
+  split
+  · cases hr : readU body with
+    | none => trivial
+    | some q =>
+      obtain ⟨l, n⟩ := q
+      simp only
+      split
+      · trivial
+      · have hg := hrd ((body.drop n).take l) (by simp only [List.length_take, List.length_drop]; omega)
+        rcases fine_cases hg with ⟨⟨cs, m⟩, e⟩ | e
+        · simp [e, Res.fine]
+        · simp [e, Res.fine]
+  · exact hrd body hb
+
+theorem skip_fine (d : Bytes) (wt : WT) : (skip d wt).fine := (skip_total d wt).1
+
+theorem wrapCalls_fine (b : Bool) (r : Res (List OCall × Nat)) (h : r.fine) : (wrapCalls b r).fine := by
+  rcases fine_cases h with ⟨⟨cs, n⟩, e⟩ | e <;> simp [e, wrapCalls, Res.fine]
+
+/-- the leaf readers: the fixed codec instances the walker uses return a value
+of their own kind or an error. -/
+theorem leafRead_fine_bool (wt : WT) (d : Bytes) : (leafRead .bool wt d).fine := by
+  simp only [leafRead, Ty.read]; split <;> simp [leafCall, Res.fine]
+
+theorem leafRead_fine_int (wt : WT) (d : Bytes) : (leafRead (.int 64) wt d).fine := by
+  simp only [leafRead, Ty.read]; split <;> simp [leafCall, Res.fine]
+
+theorem leafRead_fine_uint (wt : WT) (d : Bytes) : (leafRead (.uint 64) wt d).fine := by
+  simp only [leafRead, Ty.read]; split <;> simp [leafCall, Res.fine]
+
+theorem leafRead_fine_flat (wt : WT) (d : Bytes) : (leafRead (.flat 64) wt d).fine := by
+  simp only [leafRead, Ty.read]; split <;> simp [leafCall, Res.fine]
+
+theorem leafRead_fine_f32 (wt : WT) (d : Bytes) : (leafRead .f32 wt d).fine := by
+  simp only [leafRead, Ty.read]; split <;> (try split) <;> simp [leafCall, Res.fine]
+
+theorem leafRead_fine_f64 (wt : WT) (d : Bytes) : (leafRead .f64 wt d).fine := by
+  simp only [leafRead, Ty.read]; split <;> (try split) <;> simp [leafCall, Res.fine]
+
+theorem leafRead_fine_str (wt : WT) (d : Bytes) : (leafRead (.str false) wt d).fine := by
+  simp [leafRead, Ty.read, leafCall, Res.fine]
+
+theorem leafRead_fine_time (wt : WT) (d : Bytes) : (leafRead (.time false) wt d).fine := by
+  have h := (Total.read_total (.time false) trivial wt d (Ty.time false).zero (by simp [Total.Shape])).1
+  unfold leafRead
+  revert h
+  simp only [Ty.read]
+  split
+  · intro _; simp [leafCall, Res.fine]
+  · split <;> intro h <;> simp_all [Res.fine, timeNorm, leafCall]
+
+theorem bqRead_fine (d : Bytes) : (bqRead d).fine := by
+  unfold bqRead; simp only; split <;> trivial
+
+/-! #### JSON objects and arrays -/
+
+theorem jsonKVStep_fine (rec : Bool → Bytes → Res (List OCall × Nat)) (L : Nat)
+    (hrec : ∀ b body, body.length < L → (rec b body).fine)
+    (idx : Nat) (wt : WT) (body : Bytes) (st : KVSt) (hb : body.length < L) :
+    (jsonKVStep rec idx wt body st).fine := by
+  have hsub : ∀ r : Res (List OCall × Nat), r.fine →
+      (match r with
+        | .ok (cs, n) => (Res.ok ((st.1 ++ cs, st.2.1, true), n) : Res (KVSt × Nat))
+        | .err => .err | .panic => .panic | .hang => .hang).fine := by
+    intro r hr
+    rcases fine_cases hr with ⟨⟨cs, n⟩, e⟩ | e <;> simp [e, Res.fine]
+  unfold jsonKVStep
+  split
+  · cases readU body with
+    | none => trivial
+    | some q => obtain ⟨l, n⟩ := q; simp only; split <;> trivial
+  · split
+    · cases readU body with
+      | none => trivial
+      | some q => obtain ⟨l, n⟩ := q; trivial
+    · split
+      · simp only
+        split
+        · cases readU body with
+          | none => trivial
+          | some q => obtain ⟨l, n⟩ := q; simp only; split <;> trivial
+        · exact hsub _ (leafRead_fine_int wt body)
+        · exact hsub _ (leafRead_fine_f64 wt body)
+        · exact hsub _ (leafRead_fine_bool wt body)
+        · exact hsub _ (hrec false body hb)
+        · exact hsub _ (hrec true body hb)
+        · cases readU body with
+          | none => trivial
+          | some q => obtain ⟨l, n⟩ := q; simp only; split <;> trivial
+        · trivial
+      · trivial
+
+theorem jsonKV_fine (rec : Bool → Bytes → Res (List OCall × Nat)) (data : Bytes)
+    (hrec : ∀ b body, body.length < data.length → (rec b body).fine) : (jsonKV rec data).fine := by
+  unfold jsonKV
+  have h := walkLoop_total (jsonKVStep rec) data.length
+    (fun idx wt body st hb => jsonKVStep_fine rec data.length hrec idx wt body st hb)
+    (data.length + 1) data 0 ([], 0, false) (by omega) (by omega)
+  rcases fine_cases h with ⟨⟨⟨acc, jt, vd⟩, off⟩, e⟩ | e <;> simp [e, Res.fine]
+
+theorem jsonWalk_fine : ∀ (fuel : Nat) (isObj : Bool) (data : Bytes), data.length < fuel →
+    (jsonWalk fuel isObj data).fine := by
+  intro fuel
+  induction fuel with
+  | zero => intro _ data h; omega
+  | succ f ih =>
+    intro isObj data hl
+    rw [jsonWalk]
+    simp only
+    split
+    · trivial
+    · have h := countLoop_total (jsonKV (jsonWalk f)) true data.length
+        (fun b hb => jsonKV_fine (jsonWalk f) b (fun o body hbody => ih o body (by omega)))
+        (readVarUint data).1 (data.drop (readVarUint data).2.toNat) (readVarUint data).2.toNat []
+        (by simp only [List.length_drop]; omega)
+      rcases fine_cases h with ⟨⟨cs, off⟩, e⟩ | e <;> simp [e, Res.fine]
+
+/-! #### the walker -/
+
+mutual
+/-- every slice node has an element descriptor. -/
+def _root_.Desc.ok : Desc → Prop
+  | ⟨_, _, ty, _, els, _, _⟩ => (ty = .slice → els ≠ []) ∧ Desc.okList els
+def _root_.Desc.okList : List Desc → Prop
+  | [] => True
+  | d :: r => d.ok ∧ Desc.okList r
+end
+
+theorem ok_with (d : Desc) (i : Nat) (nm : String) (ep : Bool) :
+    Desc.ok { d with index := i, name := nm, explicitPresence := ep } ↔ d.ok := by
+  cases d; simp [Desc.ok]
+
+theorem entryValid_shape (ty : FieldType) (lt : LogicalType) (els : List Desc)
+    (h : entryValid ty lt els = true) : ∃ k v, els = [k, v] := by
+  simp only [entryValid, Bool.and_eq_true, beq_iff_eq] at h
+  match els, h with
+  | [k, v], _ => exact ⟨k, v, rfl⟩
+  | [], h => simp at h
+  | [_], h => simp at h
+  | _ :: _ :: _ :: _, h => simp at h
+
+theorem entryStep_fine (ki vi : Nat) (rdK rdV : Bytes → Res (List OCall × Nat))
+    (hK : ∀ b, (rdK b).fine) (hV : ∀ b, (rdV b).fine)
+    (idx : Nat) (wt : WT) (body : Bytes) (st : EntrySt) :
+    (entryStep ki vi rdK rdV idx wt body st).fine := by
+  unfold entryStep
+  split
+  · have := framed_total rdK wt body body.length (fun b _ => hK b) (by omega)
+    rcases fine_cases this with ⟨⟨cs, n⟩, e⟩ | e <;> simp [e, Res.fine]
+  · split
+    · have := framed_total rdV wt body body.length (fun b _ => hV b) (by omega)
+      rcases fine_cases this with ⟨⟨cs, n⟩, e⟩ | e <;> simp [e, Res.fine]
+    · rcases fine_cases (skip_fine body wt) with ⟨n, e⟩ | e <;> simp [e, Res.fine]
+
+theorem entryWalk_fine (key value : Desc) (rdK rdV : Bytes → Res (List OCall × Nat))
+    (hK : ∀ b, (rdK b).fine) (hV : ∀ b, (rdV b).fine) (data : Bytes) :
+    (entryWalk key value rdK rdV data).fine := by
+  unfold entryWalk
+  split
+  · trivial
+  · have h := walkLoop_total (entryStep key.index value.index rdK rdV) data.length
+      (fun idx wt body st _ => entryStep_fine _ _ rdK rdV hK hV idx wt body st)
+      (data.length + 1) data 0 ([], false, false) (by omega) (by omega)
+    rcases fine_cases h with ⟨⟨⟨acc, kd, vd⟩, off⟩, e⟩ | e <;> simp [e, Res.fine]
+
+theorem sliceBody_fine (ty : FieldType) (rd : Bytes → Res (List OCall × Nat)) (hrd : ∀ b, (rd b).fine)
+    (data : Bytes) : (sliceBody ty rd data).fine := by
+  unfold sliceBody
+  split
+  · exact packedLoop_total rd hrd _ _ _ _ (by omega)
+  · simp only
+    split
+    · trivial
+    · exact countLoop_total rd false data.length (fun b _ => hrd b) _ _ _ _
+        (by simp only [List.length_drop]; omega)
+  · trivial
+
+mutual
+theorem descRead_fine : (d : Desc) → d.ok → ∀ data, (descRead d data).fine
+  | ⟨i, nm, ty, tn, els, ep, lt⟩, hok, data => by
+    simp only [Desc.ok] at hok
+    cases ty with
+    | int => rw [descRead_int _ rfl]; exact leafRead_fine_int _ _
+    | uint => rw [descRead_uint _ rfl]; exact leafRead_fine_uint _ _
+    | float32 => rw [descRead_f32 _ rfl]; exact leafRead_fine_f32 _ _
+    | float64 => rw [descRead_f64 _ rfl]; exact leafRead_fine_f64 _ _
+    | string => rw [descRead_string _ rfl]; exact leafRead_fine_str _ _
+    | bool => rw [descRead_bool _ rfl]; exact leafRead_fine_bool _ _
+    | time => rw [descRead_time _ rfl]; exact leafRead_fine_time _ _
+    | jsonObject => rw [descRead_jsonObject _ rfl]; exact jsonWalk_fine _ _ _ (by omega)
+    | jsonArray => rw [descRead_jsonArray _ rfl]; exact jsonWalk_fine _ _ _ (by omega)
+    | flatInt =>
+      by_cases hl : lt = .timestamp
+      · rw [descRead_bq _ rfl hl]; exact bqRead_fine _
+      · rw [descRead_flat _ rfl hl]; exact leafRead_fine_flat _ _
+    | slice =>
+      match els, hok with
+      | [], hok => exact absurd rfl (hok.1 rfl)
+      | e :: r, hok =>
+        rw [descRead_slice]
+        simp only [Desc.okList] at hok
+        exact wrapCalls_fine _ _ (sliceBody_fine _ _ (fun b => descRead_fine e hok.2.1 b) _)
+    | struct =>
+      cases hv : entryValid .struct lt els with
+      | false =>
+        rw [descRead_struct _ _ _ _ _ _ _ hv]
+        exact wrapCalls_fine _ _ (walkLoop_total _ data.length
+          (fun idx wt body acc _ => descField_fine els hok.2 idx wt body acc) _ _ _ _ (by omega) (by omega))
+      | true =>
+        match els, hok, hv with
+        | [k, v], hok, hv =>
+          rw [descRead_entry _ _ _ _ _ _ _ _ hv]
+          simp only [Desc.okList] at hok
+          exact entryWalk_fine k v _ _ (fun b => descRead_fine k hok.2.1 b)
+            (fun b => descRead_fine v hok.2.2.1 b) _
+        | [], _, hv => simp [entryValid] at hv
+        | [_], _, hv => simp [entryValid] at hv
+        | _ :: _ :: _ :: _, _, hv => simp [entryValid] at hv
+theorem descField_fine : (els : List Desc) → Desc.okList els →
+    ∀ idx wt body acc, (descField els idx wt body acc).fine
+  | [], _, idx, wt, body, acc => by
+    rw [descField]
+    rcases fine_cases (skip_fine body wt) with ⟨n, e⟩ | e <;> simp [e, Res.fine]
+  | e :: r, hok, idx, wt, body, acc => by
+    simp only [Desc.okList] at hok
+    rw [descField]
+    split
+    · have := framed_total (fun b => descRead e b) wt body body.length
+        (fun b _ => descRead_fine e hok.1 b) (by omega)
+      rcases fine_cases this with ⟨⟨cs, n⟩, e'⟩ | e' <;> simp [e', Res.fine]
+    · exact descField_fine r hok.2 idx wt body acc
+end
+
+mutual
+theorem descriptor_ok : (t : Ty) → (descriptor t).ok
+  | .bool | .int _ | .uint _ | .flat _ | .f32 | .f64 | .str _ | .bytes | .time _ => by
+      simp [descriptor, Desc.ok, Desc.okList]
+  | .ptr t => by
+      have := descriptor_ok t
+      simp only [descriptor]
+      generalize descriptor t = d at this ⊢
+      cases d; simpa [Desc.ok] using this
+  | .vslice t | .fslice t | .lslice t | .pslice t => by
+      simp [descriptor, Desc.ok, Desc.okList, descriptor_ok t]
+  | .struct n fs => by
+      simp [descriptor, Desc.ok, fieldDescs_ok fs]
+  | .map k v _ => by
+      have hk := descriptor_ok k
+      have hv := descriptor_ok v
+      simp only [descriptor, mapDesc]
+      generalize descriptor k = dk at hk ⊢
+      generalize descriptor v = dv at hv ⊢
+      cases dk; cases dv
+      simp only [Desc.ok] at hk hv
+      simp [Desc.ok, Desc.okList, hk, hv]
+theorem fieldDescs_ok : (fs : Fields) → Desc.okList (fieldDescs fs)
+  | [] => by simp [fieldDescs, Desc.okList]
+  | (i, nm, t) :: r => by
+      have ht := descriptor_ok t
+      simp only [fieldDescs, Desc.okList]
+      refine ⟨?_, fieldDescs_ok r⟩
+      generalize descriptor t = d at ht ⊢
+      cases d; simpa [Desc.ok] using ht
+end
+
 end DW
